@@ -44,8 +44,49 @@ fn main() {
                 let delta = b.len() - 4 - dec.digest_len;
                 n += 1;
                 maxlen = maxlen.max(b.len());
+                let carried: Vec<u64> = match &dec.msg { WMsg::SynAck { ops, .. } => ops.iter().filter_map(|o| if let WOp::KV { ver, .. } = o { Some(*ver) } else { None }).collect(), _ => vec![] };
                 writeln!(out, "{}", json!({"kind": "SynAck", "pad": pad, "dl": dl, "vlen": vlen, "d": dec.digest_len, "total": b.len(), "delta": delta,
-                    "included": delta > 1, "blocks": dec.blocks.iter().map(|x| x.kind).collect::<Vec<u8>>(), "panic": p})).unwrap();
+                    "included": delta > 1, "blocks": dec.blocks.iter().map(|x| x.kind).collect::<Vec<u8>>(), "panic": p,
+                    "carried": carried, "sender": [1]})).unwrap();
+            }
+        }
+    }
+    // an entry that alone exceeds the room, followed by a small higher-version entry: running out of
+    // space may only drop the tail (nothing may be carried past the entry that did not fit)
+    for pad in if quick { vec![1400usize, 1500, 1545] } else { (1300..1550).step_by(10).collect::<Vec<usize>>() } {
+        for extra in [1i64, 50, 3000] {
+            for small_first in [false, true] {
+                let mut w = World::new(WorldCfg { nodes: vec!["n1".into()], grace: 1000, ..Default::default() });
+                let mut digest = Vec::new();
+                for i in 0..41u64 {
+                    let id = WId { node_id: format!("{:0>width$}", i, width = pad), generation: 0, addr: format!("10.0.0.{}:7000", i + 1).parse().unwrap() };
+                    digest.push(WNodeDigest { id, hb: 1, gc: 0, max: 0 });
+                }
+                let z = WId { node_id: "z".into(), generation: 0, addr: "10.0.1.1:7000".parse().unwrap() };
+                digest.push(WNodeDigest { id: z.clone(), hb: 1, gc: 0, max: 0 });
+                let _ = w.deliver("n1", &codec::encode(&WMsg::Syn { cluster: "c".into(), digest }, &like));
+                let (_d, r0, _p) = w.deliver("n1", &codec::encode(&WMsg::Syn { cluster: "c".into(), digest: vec![] }, &like));
+                let d0 = match r0 { Some(b) => codec::decode(&b).map(|x| x.digest_len).unwrap_or(0), None => 0 };
+                if d0 == 0 { continue; }
+                let room = 65507i64 - 4 - d0 as i64;
+                let big = (room + extra) as usize;
+                let mut ops = vec![WOp::Node { id: z.clone(), gc: 0, from: 0 }];
+                let mut sender = Vec::new();
+                let mut ver = 0u64;
+                if small_first { ver += 1; ops.push(WOp::KV { key: "a".into(), val: "s".into(), ver, st: 0 }); sender.push(ver); }
+                ver += 1; ops.push(WOp::KV { key: "b".into(), val: big_value("big", big), ver, st: 0 }); sender.push(ver);
+                ver += 1; ops.push(WOp::KV { key: "c".into(), val: "s".into(), ver, st: 0 }); sender.push(ver);
+                let _ = w.deliver("n1", &codec::encode(&WMsg::Ack { ops }, &like));
+                let (_d, reply, p) = w.deliver("n1", &codec::encode(&WMsg::Syn { cluster: "c".into(), digest: vec![] }, &like));
+                if let Some(b) = reply {
+                    let dec = codec::decode(&b).unwrap();
+                    let delta = b.len() - 4 - dec.digest_len;
+                    let carried: Vec<u64> = match &dec.msg { WMsg::SynAck { ops, .. } => ops.iter().filter_map(|o| if let WOp::KV { ver, .. } = o { Some(*ver) } else { None }).collect(), _ => vec![] };
+                    n += 1;
+                    writeln!(out, "{}", json!({"kind": "SynAckHole", "pad": pad, "dl": extra, "vlen": big, "d": dec.digest_len, "total": b.len(), "delta": delta,
+                        "included": !carried.is_empty(), "blocks": dec.blocks.iter().map(|x| x.kind).collect::<Vec<u8>>(), "panic": p,
+                        "carried": carried, "sender": sender})).unwrap();
+                }
             }
         }
     }
